@@ -191,7 +191,9 @@ func Big(r *rand.Rand, kind string, n int) *Node {
 // BigSize picks the size parameter for a kind: deep kinds stay within the recursion depth that the ECMAScript
 // reference parsers accept comfortably, flat kinds go further.
 func BigSize(r *rand.Rand, kind string, thorough bool) int {
-	deep := map[string]bool{"right-chain": true, "deep-unary": true, "deep-call": true, "nested-blocks": true, "nested-ifs": true, "nested-functions": true, "nested-arrays": true, "deep-parens": true, "deep-index": true}
+	// (a left-deep chain of operators of mixed precedence is rendered with a parenthesis per change of level: as deep as a
+	// right-deep one for the printers, whose indented output of nested parentheses is quadratic in the depth by design)
+	deep := map[string]bool{"left-chain": true, "member-chain": true, "right-chain": true, "deep-unary": true, "deep-call": true, "nested-blocks": true, "nested-ifs": true, "nested-functions": true, "nested-arrays": true, "deep-parens": true, "deep-index": true}
 	switch {
 	case deep[kind]:
 		if thorough {
